@@ -47,7 +47,7 @@ pub fn run(args: &Args, r: &mut Report) {
         let apps = case.setup.apps.clone();
         let l1 = add_reboot_waits(&mut case.script, &mut rng, true, &apps);
         if rng.chance(1, 3) {
-            let _ = decorate_retry_after(&mut case.script, &mut rng, 1, 4);
+            let _ = decorate_retry_after_opt(&mut case.script, &mut rng, 1, 4, false);
         }
         if rng.chance(1, 3) {
             case.preload.insert("consecutive_failed_update_checks".into(), Val::I(rng.range(0, 5)));
